@@ -18,8 +18,8 @@ func init() {
 		Explanation: "(1) promise-completed-exactly-once: in broker.do, handleReq, brokerCxn.park, waitResp and handleResp every exit has completed the promisedReq/promisedResp exactly once, where completion is a promise call, a ring push that returned dead == false, a park (append to cxn.parked under parkMu with parkFailed == false) or the hand-over to waitResp carrying pr.promise; the ring workers handleReqs/handleResps complete the current element exactly once between two dropPeeks and complete with a non-nil error when the ring reported dead; failParked fails every taken request with a non-nil error and handleReauthDrain replays every taken request through handleReq; the promise fields are invoked nowhere outside this table and the promised structs are built only in do/handleReq; cxn.parked/parkFailed are accessed under parkMu only. " +
 			"(2) correlation: every return of readResponse that can carry a nil error is dominated by the comparison of the response's first four bytes with the corrID parameter, the mismatch arm returns an error; brokerCxn.corrID is written only in writeRequest, by one increment and one wrap-to-zero store, both dominated by `corrID = cxn.corrID` which AppendRequest(.., cxn.corrID) dominates; every readResponse call passes the corrID returned by the writeRequest of the same function or the promisedResp's corrID, which handleReq fills from writeRequest's result. " +
 			"(3) bounds: every index, slice and binary.BigEndian access in parseReadSize, readConn, readResponse, discard and handleResp is proven in range from dominating guards (parseReadSize's parameter from its two call sites, which pass 4-byte slices); every nil-error return of parseReadSize returns the decoded size under size >= 0 and size <= cfg.maxBrokerReadBytes, and the make() in readConn is sized by that result only after its error check. " +
-			"(4) death: brokerCxn.dead is written only by the Swap(true) guard of die, which dominates conn.Close, close(deadCh), resps.die() and failParked() and each of them is reached on every path after the guard; deadCh is closed nowhere else; stopForever's dead.Swap(true) guard dominates reqs.die() and the die() of every *brokerCxn field of broker; loadConnection stores a connection only under reapMu after re-checking b.dead; handleResp's read-error arm and handleReq's write-error arm kill the connection on every path; every blocking select in a brokerCxn method has an arm that die releases (<-cxn.deadCh, or a channel closed by the goroutine doing I/O on cxn.conn, which die closes). Ring semantics (a dead ring rejects the push with first == false so the pusher completes the element itself; the worker is started only on first) are C30's rules ring-index-arithmetic, ring-cond-discipline and ring-use-site-protocol and are relied on, not repeated.",
-		NotDecided: "timing (that deadlines actually fire within the configured timeouts: SetRead/WriteDeadline values are not evaluated), the decoding of response bodies (C15/C17), that the bytes following a matching correlation ID belong to the right response kind (the broker is trusted to answer in order per connection), and hooks supplied by the user blocking forever.",
+			"(4) death: brokerCxn.dead is written only by the Swap(true) guard of die, which dominates conn.Close, close(deadCh), resps.die() and failParked() and each of them is reached on every path after the guard; deadCh is closed nowhere else; stopForever's dead.Swap(true) guard dominates reqs.die() and the die() of every *brokerCxn field of broker; loadConnection stores a connection only under reapMu after re-checking b.dead; handleResp's read-error arm and handleReq's write-error arm kill the connection on every path; every blocking select in a brokerCxn method has an arm that die releases (<-cxn.deadCh, or a channel closed by the goroutine doing I/O on cxn.conn, which die closes). (5) retry-jump-bounded: every backward goto in a broker/brokerCxn method (handleReq's new-connection retries, loadConnection's reconnect, requestAPIVersions' downgrades, sasl's mechanism fallback, the ring workers) is taken only under a bound that is set before the jump and tested before it: a one-shot boolean latch never cleared after the label, a value latch, a counter incremented every pass and compared with a constant, a strictly decreasing value with a constant lower bound, or dropPeek's `more`. (6) reauth-only-when-no-response-in-flight: every call of cxn.sasl/doSasl outside connection construction is dominated by `cxn.resps.empty()` being true for the same connection (type-resolved ring field, also through a single-assignment local), the busy arm cannot reach the reauthentication, and reauthPending is published before the emptiness test. Ring semantics (a dead ring rejects the push with first == false so the pusher completes the element itself; the worker is started only on first) are C30's rules ring-index-arithmetic, ring-cond-discipline and ring-use-site-protocol and are relied on, not repeated.",
+		NotDecided: "termination of doSasl's challenge loop (driven by the user-supplied sasl.Session), timing (that deadlines actually fire within the configured timeouts: SetRead/WriteDeadline values are not evaluated), the decoding of response bodies (C15/C17), that the bytes following a matching correlation ID belong to the right response kind (the broker is trusted to answer in order per connection), and hooks supplied by the user blocking forever.",
 		Assumptions: []string{
 			"C30 (ring push/dropPeek/die semantics) holds",
 			"io.ReadFull returns 0 <= n <= len(buf); net.Conn.Read returns 0 <= n <= len(p)",
@@ -39,7 +39,10 @@ func runC22(c *Ctx) {
 	c22correlation(c, m)
 	c22bounds(c, m)
 	c22death(c, m)
+	c22retry(c, m)
+	c22reauth(c, m)
 	c.Set("relies_on", []string{"C30 ring-index-arithmetic kgo.ring.doPush#dead-rejects", "C30 ring-cond-discipline", "C30 ring-use-site-protocol"})
+	c23dump(c)
 }
 
 // ---------------------------------------------------------------------------
@@ -1836,4 +1839,457 @@ func c22closedByConnIO(f *Func, ch types.Object, conn *types.Var) bool {
 		return true
 	})
 	return found
+}
+
+// ---------------------------------------------------------------------------
+// (5) retry jumps on the request path are bounded
+
+// c22cmpFact normalises a comparison fact to (x op y) holding as true.
+func c22relOf(ft Fact) (ast.Expr, token.Token, ast.Expr, bool) { return c22rel(ft) }
+
+func c22retry(c *Ctx, m *Module) {
+	rule := "retry-jump-bounded"
+	n := 0
+	for _, f := range m.FuncsIn("kgo") {
+		if f.Decl.Recv == nil {
+			continue
+		}
+		rt := recvTypeName(f.Decl.Recv.List[0].Type)
+		if rt != "broker" && rt != "brokerCxn" {
+			continue
+		}
+		info := f.Info()
+		labels := map[string]*ast.LabeledStmt{}
+		ast.Inspect(f.Decl.Body, func(x ast.Node) bool {
+			if ls, ok := x.(*ast.LabeledStmt); ok {
+				labels[ls.Label.Name] = ls
+			}
+			return true
+		})
+		ord := 0
+		ast.Inspect(f.Decl.Body, func(x ast.Node) bool {
+			bs, ok := x.(*ast.BranchStmt)
+			if !ok || bs.Tok != token.GOTO || bs.Label == nil {
+				return true
+			}
+			ls := labels[bs.Label.Name]
+			if ls == nil || ls.Pos() > bs.Pos() {
+				return true // forward jump
+			}
+			n++
+			ord++
+			c.Touch(f)
+			cons := fmt.Sprintf("%s: goto %s #%d", f.Key, bs.Label.Name, ord)
+			g := f.GraphFor(bs)
+			gl, ok := g.LocOf(bs)
+			if !ok {
+				gl, ok = c22gotoLoc(f, g, bs)
+			}
+			if !ok {
+				c.Undecided(rule, cons, bs.Pos(), m, "backward goto not located in the CFG")
+				return true
+			}
+			facts := g.FactsAt(gl)
+			// writes to a local between label and goto (region) / anywhere
+			type write struct {
+				node ast.Node
+				rhs  ast.Expr
+				inc  bool
+			}
+			writesTo := func(o types.Object) []write {
+				var out []write
+				ast.Inspect(f.Decl.Body, func(y ast.Node) bool {
+					switch st := y.(type) {
+					case *ast.AssignStmt:
+						for i, l := range st.Lhs {
+							if id, ok := l.(*ast.Ident); ok && c22identObj(info, id) == o {
+								var rhs ast.Expr
+								if len(st.Rhs) == len(st.Lhs) {
+									rhs = st.Rhs[i]
+								}
+								out = append(out, write{st, rhs, false})
+							}
+						}
+					case *ast.IncDecStmt:
+						if id, ok := st.X.(*ast.Ident); ok && c22identObj(info, id) == o {
+							out = append(out, write{st, nil, st.Tok == token.INC})
+						}
+					case *ast.ValueSpec:
+						for i, nm := range st.Names {
+							if info.Defs[nm] == o {
+								var rhs ast.Expr
+								if i < len(st.Values) {
+									rhs = st.Values[i]
+								}
+								out = append(out, write{st, rhs, false})
+							}
+						}
+					case *ast.UnaryExpr:
+						if st.Op == token.AND {
+							if id, ok := unparen(st.X).(*ast.Ident); ok && c22identObj(info, id) == o {
+								out = append(out, write{st, nil, false}) // address taken: unknown writes
+							}
+						}
+					}
+					return true
+				})
+				return out
+			}
+			isLocalVar := func(o types.Object) bool {
+				v, ok := o.(*types.Var)
+				return ok && !v.IsField() && o.Pos() >= f.Decl.Pos() && o.Pos() <= f.Decl.End()
+			}
+			domGoto := func(nd ast.Node) bool {
+				l, ok := g.LocOf(nd)
+				return ok && (g.Dominates(l, gl) || l == gl)
+			}
+			inRegion := func(nd ast.Node) bool { return nd.Pos() > ls.Pos() }
+			how := ""
+			// (A) one-shot boolean latch
+			for _, ft := range facts {
+				id, ok := unparen(ft.Cond).(*ast.Ident)
+				if !ok || ft.Tag != nil || ft.Val || how != "" {
+					continue
+				}
+				o := info.Uses[id]
+				if o == nil || !isLocalVar(o) {
+					continue
+				}
+				set, clean := false, true
+				for _, w := range writesTo(o) {
+					if !inRegion(w.node) {
+						continue // declaration / initialisation before the label
+					}
+					v, isC := false, false
+					if w.rhs != nil {
+						v, isC = constBool(info, w.rhs)
+					}
+					if !isC || !v {
+						clean = false
+						continue
+					}
+					if domGoto(w.node) {
+						set = true
+					}
+				}
+				if set && clean {
+					how = "one-shot latch `" + id.Name + "`: tested false, set true before the jump, never cleared after the label"
+				}
+			}
+			// (D) ring drain: continue while dropPeek reports more
+			for _, ft := range facts {
+				id, ok := unparen(ft.Cond).(*ast.Ident)
+				if !ok || ft.Tag != nil || !ft.Val || how != "" {
+					continue
+				}
+				o := info.Uses[id]
+				for _, w := range writesTo(o) {
+					if as, ok := w.node.(*ast.AssignStmt); ok && len(as.Rhs) == 1 && domGoto(as) && inRegion(as) {
+						if call, ok := unparen(as.Rhs[0]).(*ast.CallExpr); ok && calleeName(info, call) == "kgo.ring.dropPeek" {
+							how = "ring drain: jumps back only while dropPeek reports another element (each pass removes one)"
+						}
+					}
+				}
+			}
+			// comparisons
+			for _, ft := range facts {
+				if how != "" {
+					break
+				}
+				x, op, y, ok := c22relOf(ft)
+				if !ok {
+					continue
+				}
+				// (A') constant latch: V != K at the jump, V = K before it
+				if op == token.NEQ {
+					if k, isK := constInt(info, y); isK {
+						if o := c22identObj(info, x); o != nil && isLocalVar(o) {
+							okAll, set := true, false
+							for _, w := range writesTo(o) {
+								if !inRegion(w.node) {
+									continue
+								}
+								if w.rhs == nil {
+									okAll = false
+									continue
+								}
+								if v, isC := constInt(info, w.rhs); isC && v == k {
+									if domGoto(w.node) {
+										set = true
+									}
+									continue
+								}
+								// other writes must be strict decreases (V = N under N < V)
+								if !c22strictDecrease(f, g, w.node, w.rhs, o) {
+									okAll = false
+								}
+							}
+							if okAll && set {
+								how = fmt.Sprintf("value latch: `%s` differs from %d at the jump and is set to %d before it (the next pass takes the guarded exit)", o.Name(), k, k)
+							}
+						}
+					}
+				}
+				// (C) counter: V < K at the jump, V++ once per pass
+				if op == token.LSS || op == token.LEQ {
+					if _, isK := constInt(info, y); isK {
+						if o := c22identObj(info, x); o != nil && isLocalVar(o) {
+							incs, okAll := 0, true
+							for _, w := range writesTo(o) {
+								if !inRegion(w.node) {
+									continue
+								}
+								if w.inc && domGoto(w.node) {
+									incs++
+								} else {
+									okAll = false
+								}
+							}
+							if okAll && incs >= 1 {
+								how = "counter: `" + o.Name() + "` is incremented on every pass and the jump is taken only below a constant"
+							}
+						}
+					}
+				}
+				// (B) strict decrease with a lower bound: N < V at the jump, V = N before it, N >= const
+				if op == token.LSS || op == token.GTR {
+					lo, hi := x, y
+					if op == token.GTR {
+						lo, hi = y, x
+					}
+					vo, no := c22identObj(info, hi), c22identObj(info, lo)
+					if vo != nil && no != nil && isLocalVar(vo) {
+						set, okAll := false, true
+						for _, w := range writesTo(vo) {
+							if !inRegion(w.node) {
+								continue
+							}
+							if w.rhs != nil && c22identObj(info, w.rhs) == no && domGoto(w.node) {
+								set = true
+								continue
+							}
+							if w.rhs != nil {
+								if _, isC := constInt(info, w.rhs); isC {
+									continue // constant latch writes are judged at their own jump
+								}
+							}
+							okAll = false
+						}
+						bounded := false
+						for _, f2 := range facts {
+							x2, op2, y2, ok2 := c22relOf(f2)
+							if ok2 && c22identObj(info, x2) == no && (op2 == token.GEQ || op2 == token.GTR) {
+								if _, isK := constInt(info, y2); isK {
+									bounded = true
+								}
+							}
+						}
+						if set && okAll && bounded {
+							how = "strictly decreasing `" + vo.Name() + "` with a constant lower bound"
+						}
+					}
+				}
+			}
+			c.Check(how != "", rule, cons, bs.Pos(), m, how,
+				"a backward jump on the connection's request path is not bounded by a one-shot latch, a counter or a strictly decreasing value that is set before the jump and tested before it: the peer decides how often the exchange repeats (this path runs without the request context, so the request and everything queued behind it wait forever)")
+			return true
+		})
+	}
+	c.Floor(rule, n, 9)
+}
+
+// c22gotoLoc locates a goto (go/cfg does not record branch statements as
+// nodes): after the simple statement preceding it, or at the start of the
+// then/else/case block it opens.
+func c22gotoLoc(f *Func, g *Graph, bs *ast.BranchStmt) (Loc, bool) {
+	parents := parentMap(f.Decl.Body)
+	par := parents[bs]
+	var list []ast.Stmt
+	switch p := par.(type) {
+	case *ast.BlockStmt:
+		list = p.List
+	case *ast.CaseClause:
+		list = p.Body
+	case *ast.CommClause:
+		list = p.Body
+	default:
+		return Loc{}, false
+	}
+	idx := -1
+	for i, st := range list {
+		if st == ast.Stmt(bs) {
+			idx = i
+		}
+	}
+	if idx > 0 {
+		switch prev := list[idx-1].(type) {
+		case *ast.AssignStmt, *ast.ExprStmt, *ast.IncDecStmt, *ast.DeclStmt:
+			return g.LocOf(prev)
+		}
+		return Loc{}, false
+	}
+	if idx != 0 {
+		return Loc{}, false
+	}
+	var want cfg.BlockKind
+	var owner ast.Stmt
+	switch p := par.(type) {
+	case *ast.BlockStmt:
+		ifs, ok := parents[p].(*ast.IfStmt)
+		if !ok {
+			return Loc{}, false
+		}
+		owner = ifs
+		want = cfg.KindIfThen
+		if ifs.Else == ast.Stmt(p) {
+			want = cfg.KindIfElse
+		}
+	case *ast.CaseClause:
+		owner, want = p, cfg.KindSwitchCaseBody
+	case *ast.CommClause:
+		owner, want = p, cfg.KindSelectCaseBody
+	}
+	for _, b := range g.C.Blocks {
+		if b.Stmt == owner && b.Kind == want && g.live[b.Index] {
+			return Loc{int(b.Index), -1}, true
+		}
+	}
+	return Loc{}, false
+}
+
+// c22strictDecrease: the write `V = N` happens under the fact N < V.
+func c22strictDecrease(f *Func, g *Graph, node ast.Node, rhs ast.Expr, v types.Object) bool {
+	info := f.Info()
+	no := c22identObj(info, rhs)
+	l, ok := g.LocOf(node)
+	if no == nil || !ok {
+		return false
+	}
+	for _, ft := range g.FactsAt(l) {
+		x, op, y, ok := c22rel(ft)
+		if !ok {
+			continue
+		}
+		if op == token.LSS && c22identObj(info, x) == no && c22identObj(info, y) == v {
+			return true
+		}
+		if op == token.GTR && c22identObj(info, y) == no && c22identObj(info, x) == v {
+			return true
+		}
+	}
+	return false
+}
+
+// ---------------------------------------------------------------------------
+// (6) in-place reauthentication only on a quiet connection
+
+func c22reauth(c *Ctx, m *Module) {
+	rule := "reauth-only-when-no-response-in-flight"
+	n := 0
+	rp := m.Field("kgo", "brokerCxn", "reauthPending")
+	for _, f := range m.FuncsIn("kgo") {
+		if f.Key == "kgo.brokerCxn.init" || f.Key == "kgo.brokerCxn.sasl" {
+			continue // a connection under construction is not shared yet
+		}
+		info := f.Info()
+		for _, call := range c22callsDeep(f.Decl.Body, func(call *ast.CallExpr) bool {
+			k := calleeName(info, call)
+			return k == "kgo.brokerCxn.sasl" || k == "kgo.brokerCxn.doSasl"
+		}) {
+			n++
+			c.Touch(f)
+			cons := f.Key + ": " + exprStr(call.Fun) + "()"
+			g := f.GraphFor(call)
+			l, ok := g.LocOf(call)
+			if !ok {
+				c.Undecided(rule, cons, call.Pos(), m, "call not located")
+				continue
+			}
+			base := ""
+			if sel, ok := unparen(call.Fun).(*ast.SelectorExpr); ok {
+				base = nosp(exprStr(sel.X))
+			}
+			var emptyCond ast.Expr
+			quiet := false
+			for _, ft := range g.FactsAt(l) {
+				fc, fv := unparen(ft.Cond), ft.Val
+				// a single-assignment local holding (the negation of) the emptiness test
+				if id, isID := fc.(*ast.Ident); isID && ft.Tag == nil {
+					if o := info.Uses[id]; o != nil {
+						if defs := assignsTo(f, o); len(defs) == 1 && defs[0] != nil {
+							fc = unparen(defs[0])
+							for {
+								ue, isNot := fc.(*ast.UnaryExpr)
+								if !isNot || ue.Op != token.NOT {
+									break
+								}
+								fc, fv = unparen(ue.X), !fv
+							}
+						}
+					}
+				}
+				ec, ok := fc.(*ast.CallExpr)
+				if !ok || !fv || !c22ringCall(info, ec, "empty", "resps") {
+					continue
+				}
+				// the ring of the same connection
+				if rs, ok := unparen(ec.Fun).(*ast.SelectorExpr); ok {
+					if inner, ok := unparen(rs.X).(*ast.SelectorExpr); ok && nosp(exprStr(inner.X)) == base {
+						quiet = true
+						emptyCond = ec
+					}
+				}
+			}
+			c.Check(quiet, rule, cons, call.Pos(), m, "dominated by "+base+".resps.empty() == true",
+				"the connection is reauthenticated in place (handshake/authenticate responses are read on this goroutine) without the in-flight response ring being known empty: with a pipelined response outstanding two readers share the byte stream and a response is consumed by a request whose correlation ID it does not carry")
+			if !quiet {
+				continue
+			}
+			// the not-quiet arm parks or returns; and the pending flag is published before the test
+			if ifs := c22ifOfCond(f, emptyCond); ifs != nil {
+				be, _ := g.LocOf(emptyCond)
+				_, leaks := g.FindPath(be, SearchOpts{
+					GoalNode: func(nd ast.Node) bool {
+						return containsNode(nd, false, func(y ast.Node) bool { return y == ast.Node(call) })
+					},
+					EdgeOK: func(from *cfg.Block, k int, to *cfg.Block) bool {
+						// forbid the edge on which the ring is known empty
+						cond, _, okc := g.condOf(from)
+						if !okc || !containsNode(cond, false, func(y ast.Node) bool { return y == ast.Node(emptyCond) }) {
+							return true
+						}
+						for _, ft := range decompose(cond, k == 0, nil) {
+							if unparen(ft.Cond) == ast.Expr(emptyCond) && ft.Val {
+								return false
+							}
+						}
+						return true
+					},
+				})
+				c.Check(!leaks, rule, cons+"#busy-arm-never-reauths", ifs.Pos(), m, "", "the arm taken while responses are in flight can still reach the in-place reauthentication")
+			}
+			if rp != nil {
+				for _, st := range storesTo(f.Decl.Body, info, rp, false) {
+					if v, isC := constBool(info, st.RHS); isC && v && st.Kind == "atomic:Store" {
+						sl, ok1 := g.LocOf(st.Node)
+						el, ok2 := g.LocOf(emptyCond)
+						c.Check(ok1 && ok2 && (g.Dominates(sl, el)), rule, cons+"#pending-published-before-test", st.Node.Pos(), m, "reauthPending.Store(true) precedes the emptiness test", "reauthPending is published after the in-flight test: a response worker exiting in between misses the drain signal and the parked request is never replayed")
+					}
+				}
+			}
+		}
+	}
+	c.Floor(rule, n, 2)
+}
+
+// c22ifOfCond returns the if statement whose condition contains e.
+func c22ifOfCond(f *Func, e ast.Expr) *ast.IfStmt {
+	var out *ast.IfStmt
+	ast.Inspect(f.Decl.Body, func(x ast.Node) bool {
+		if ifs, ok := x.(*ast.IfStmt); ok && containsNode(ifs.Cond, false, func(y ast.Node) bool { return y == ast.Node(e) }) {
+			out = ifs
+		}
+		return true
+	})
+	return out
 }
